@@ -39,6 +39,19 @@ def layouts(payload, opcode, masked, rng):
     return out
 
 
+SEND_IMPORTS = "From AV Require Import Model.Masker Gen.WsConsts Model.WsRecv Model.WsSendGuard Model.WsSendGuardRun."
+
+
+def send_term(c, r):
+    """one send case as a Coq term of type send_case (Model/WsSendGuardRun.v)"""
+    b = lambda x: "true" if x else "false"
+    ops = "; ".join(f"({0 if o['api'] == 'message' else 1}, {b(o['dnc'])}, {o['len']}, {b(o['binary'])}, {g['comp_len']})"
+                    for o, g in zip(c["sends"], r["sends"]["ops"]))
+    obs = "; ".join(f"({b(g['raised'] == 'PayloadExceededError' and not g['wrote'])}, {b(g['rsv1'])}, {g['wire_len']}, {b(g['compressor_none'])})"
+                    for g in r["sends"]["ops"])
+    return f"({c['max_msg']}, {b(c['pmc'])}, [{ops}], [{obs}])"
+
+
 def header_len(frame):
     b1 = frame[1]
     l7 = b1 & 127
@@ -114,6 +127,7 @@ def run(ck):
     rng = ck.rng("grid")
     limits = [1, 125, 126, 65535, 65536]
     model_cases = []
+    send_model = []
     def limit_kinds(L):
         """(label, maxMessagePayloadSize, maxFramePayloadSize): one limit at a time, and both set through the same
         setProtocolOptions call (equal values, and each one the smaller)"""
@@ -134,6 +148,7 @@ def run(ck):
         return False, None
 
     for fw in FWS:
+        base.config_plumbing(ck, fw)
         cases, meta = [], []
         for role in ("server", "client"):
             masked = role == "server"
@@ -307,6 +322,151 @@ def run(ck):
                              f"[{fw}] sendMessage of {size} octets with maxMessagePayloadSize={L}, maxFramePayloadSize={c['max_frame']}: {r['events']}",
                              {"fw": fw, "case": c, "observed": r}, found_input=True)
 
+        # ---- the three receive APIs x several messages per connection
+        # onMessage | onMessageBegin/onMessageFrame/onMessageEnd | onMessageBegin/onMessageFrameBegin/onMessageFrameData/
+        # onMessageFrameEnd/onMessageEnd, overridden the way the shipped examples do (ws_recv.FrameApi / StreamingApi: only
+        # onMessageBegin and onMessageFrameBegin chain to the base class).  The limit is per MESSAGE: messages that are
+        # each within the limit must all arrive although their sizes add up beyond it; the first over-limit one fails
+        # the connection at its header.  The options reach the factory in one call or in one call per option.
+        acases, ameta = [], []
+        arng = ck.rng("apis")
+        for api in ("message", "frame", "streaming"):
+            for role in ("server", "client"):
+                masked = role == "server"
+                for L in (125, 1000):
+                    for kind, lim_msg, lim_frame in (("msg", L, 0), ("both-equal", L, L)):
+                        plans = [("sum-over", [L // 2 + 1] * 3, None), ("each-at-limit", [L, L, L], None),
+                                 ("mixed", [1, L, 0, L - 1], None), ("then-over", [L // 2 + 1, L, L + 1, 3], 2)]
+                        for pname, sizes, bad in plans:
+                            for frag in (False, True):
+                                frames, lens = [], []
+                                for mi, n in enumerate(sizes):
+                                    payload = bytes((i * 11 + mi) & 0x7F for i in range(n))
+                                    key = bytes(arng.getrandbits(8) for _ in range(4))
+                                    if frag and n >= 2 and (lim_frame == 0 or True):
+                                        h = n // 2
+                                        frames += [base.enc_frame(2 - mi % 2, payload[:h], fin=False, masked=masked, key=key),
+                                                   base.enc_frame(0, payload[h:], fin=True, masked=masked, key=key)]
+                                    else:
+                                        frames.append(base.enc_frame(2 - mi % 2, payload, masked=masked, key=key))
+                                stream = b"".join(frames)
+                                for fbd in (True, False):
+                                    style = arng.choice([None, "each", "each-rev"])
+                                    cfgc = dict(BASE, role=role, fbd=fbd, max_msg=lim_msg, max_frame=lim_frame, api=api)
+                                    if style:
+                                        cfgc["config_style"] = style
+                                    a, b = sorted((arng.randint(1, len(stream) - 1), arng.randint(1, len(stream) - 1)))
+                                    variants = [("whole", [stream]), ("cuts", [stream[:a], stream[a:b], stream[b:]])]
+                                    if fw == "aio":
+                                        variants.append(("burst", [stream[:a], stream[a:b], stream[b:]]))
+                                    for vname, chunks in variants:
+                                        c = dict(cfgc, chunks=[x.hex() for x in chunks])
+                                        if vname == "burst":
+                                            c["burst"] = True
+                                        acases.append(c)
+                                        ameta.append(dict(api=api, plan=pname, sizes=sizes, bad=bad, frag=frag, kind=kind, variant=vname, L=L))
+        ares = ck.run_impl("ws_recv.py", {"fw": fw, "cases": acases}, nvx=False, timeout=1200)["results"]
+        ck.evaluations += len(acases)
+        ck.note_cases(0, (json.dumps([fw, "api", c["api"], c["role"], c["fbd"], c["max_msg"], c["max_frame"], c.get("config_style"), m["plan"], m["frag"],
+                                      [len(x) for x in c["chunks"]]]) for c, m in zip(acases, ameta)))
+        for i, (c, r, m) in enumerate(zip(acases, ares, ameta)):
+            ck.bump(f"recv-api:{m['api']}:{m['plan']}")
+            for key, what in ws_recv.check_against_rfc(c, r):
+                if "control-callback-after-violation" in key or "processing-after-close-frame" in key:
+                    continue
+                ck.violation(f"recv-api/{m['api']}/{m['kind']}/" + key,
+                             f"[{fw}] application uses the {m['api']} receive API, limits msg={c['max_msg']} frame={c['max_frame']} "
+                             f"({c.get('config_style') or 'one setProtocolOptions call'}), {len(m['sizes'])} messages of sizes {m['sizes']}"
+                             f"{' (two fragments each)' if m['frag'] else ''}, {m['variant']}: {what}",
+                             {"fw": fw, "case": c, "observed": r, "grid": m}, found_input=True)
+            failed = any(e[0] == "drop" for e in r["events"]) or any(e[0] == "sendclose" and e[1] == 1009 for e in r["events"])
+            if m["bad"] is not None and not failed:
+                ck.violation(f"recv-api/{m['api']}/{m['kind']}/over-limit-not-failed",
+                             f"[{fw}] {m['api']} receive API: message {m['bad']} of sizes {m['sizes']} exceeds msg={c['max_msg']} frame={c['max_frame']} "
+                             f"and the connection was not failed", {"fw": fw, "case": c, "observed": r, "grid": m}, found_input=True)
+            if i % 4 == 0 and sum(len(x) for x in c["chunks"]) <= 2400:
+                model_cases.append((fw, c, r))
+
+        # ---- the send APIs: sendMessage (plain / fragmentSize / doNotCompress) and sendPreparedMessage (doNotCompress
+        # either way), with and without permessage-deflate, several operations on one connection: legal, over-limit
+        # (incompressible), legal, legal, at the limit, over-limit, legal.  Every over-limit operation must raise
+        # PayloadExceededError and write NOTHING; every other must be written; a peer reading the octets written (an
+        # independent frame parser, ONE real zlib inflater per connection) must get exactly the accepted payloads.
+        sa_cases, sa_meta = [], []
+        for role in ("server", "client"):
+            for pmc in (False, True):
+                for L in (60, 126, 1000):
+                    for api, dnc, fragment in (("message", False, None), ("message", False, 7), ("message", True, None),
+                                               ("prepared", False, None), ("prepared", True, None)):
+                        a = L // 3
+                        V = dict(api=api, dnc=dnc, fragment=fragment)
+                        ops = [dict(V, len=a, kind="flat", seed=0), dict(V, len=3 * L + 5, kind="noise"),
+                               dict(V, len=a + 1, kind="flat", seed=1), dict(api="message", dnc=False, fragment=None, len=a + 2, kind="flat", seed=2),
+                               dict(V, len=L, kind="flat", seed=0), dict(V, len=3 * L + 6, kind="noise"), dict(V, len=a + 3, kind="flat", seed=1)]
+                        if not pmc or dnc:
+                            ops.insert(5, dict(V, len=L + 1, kind="flat", seed=2))       # uncompressed path: exact boundary
+                        for j, o in enumerate(ops):
+                            o["binary"] = j % 2 == 0
+                        sa_cases.append(dict(BASE, role=role, max_msg=L, pmc=pmc, chunks=[], nolost=True, sends=ops))
+                        sa_meta.append(dict(fn="sendMessage" if api == "message" else "sendPreparedMessage",
+                                            path="plain" if not pmc else ("pmc+doNotCompress" if dnc else "pmc"), L=L, pmc=pmc))
+        sa_res = ck.run_impl("ws_recv.py", {"fw": fw, "cases": sa_cases}, nvx=False, timeout=600)["results"]
+        ck.evaluations += len(sa_cases)
+        ck.note_cases(0, (json.dumps([fw, "send", c["role"], c["pmc"], c["max_msg"], [(o["api"], o["dnc"], o["fragment"], o["len"], o["kind"]) for o in c["sends"]]])
+                          for c in sa_cases))
+        for c, r, m in zip(sa_cases, sa_res, sa_meta):
+            L, S = m["L"], r["sends"]
+            rep = {"fw": fw, "case": c, "observed": {"sends": {"ops": [dict(o, payload=o["payload"][:32] + "...") for o in S["ops"]],
+                                                               "peer": [[p[0][:32] + "...", len(p[0]) // 2, p[1]] for p in S["peer"]],
+                                                               "peer_error": S["peer_error"]}, "state": r["state"]}}
+            want_peer, refused_before, op_bad = [], [], False
+            for j, (o, got) in enumerate(zip(c["sends"], S["ops"])):
+                over = o["kind"] == "noise" or (o["len"] > L and (not c["pmc"] or o["dnc"]))
+                fn = "sendMessage" if o["api"] == "message" else "sendPreparedMessage"
+                path = "plain" if not c["pmc"] else ("pmc+doNotCompress" if o["dnc"] else "pmc")
+                ck.bump(f"send-api:{fn}:{path}:{'over' if over else 'within'}")
+                what = None
+                if over and got["raised"] is None:
+                    what = "over-limit-not-refused"
+                elif over and got["wrote"]:
+                    what = "refused-but-wrote"
+                elif got["raised"] == "PayloadExceededError" and not over:
+                    what = "legal-refused"
+                elif got["raised"] is not None and got["raised"] != "PayloadExceededError":
+                    what = "raised-" + got["raised"]
+                elif not over and not got["wrote"]:
+                    what = "legal-not-written"
+                if what:
+                    op_bad = True
+                    ck.violation(f"send-api/{fn}/{path}/{what}",
+                                 f"[{fw}] {c['role']}, maxMessagePayloadSize={L}, permessage-deflate {'on' if c['pmc'] else 'off'}: operation {j} "
+                                 f"{fn}({o['len']} octets, {o['kind']}{', doNotCompress' if o['dnc'] else ''}{', fragmentSize=%d' % o['fragment'] if o['fragment'] else ''}) "
+                                 f"-> raised {got['raised']}, wrote {got['wrote']} octets (compressor output {got['comp_len']})", rep, found_input=True)
+                if over:
+                    refused_before.append((j, fn, path))
+                else:
+                    want_peer.append((got["payload"], bool(o["binary"]), j, len(refused_before)))
+            if not op_bad:
+                got_peer = [(p[0], bool(p[1])) for p in S["peer"]]
+                k = next((k for k, (w, g) in enumerate(zip(want_peer, got_peer)) if (w[0], w[1]) != g), min(len(want_peer), len(got_peer)))
+                if S["peer_error"] or len(got_peer) != len(want_peer) or k < len(want_peer):
+                    nref = want_peer[k][3] if k < len(want_peer) else len(refused_before)
+                    if nref:
+                        _, fn, path = refused_before[nref - 1]
+                        key = f"send-api/{fn}/{path}/peer-cannot-read-after-refusal"
+                    else:
+                        key = f"send-api/{m['fn']}/{m['path']}/peer-reads-wrong"
+                    ck.violation(key, f"[{fw}] {c['role']}, maxMessagePayloadSize={L}, permessage-deflate {'on' if c['pmc'] else 'off'}: the peer (independent "
+                                 f"frame parser + one real zlib inflater for the connection) reads {len(got_peer)} message(s) of the {len(want_peer)} accepted ones; "
+                                 f"the first {k} are right, then: {S['peer_error'] or 'a different payload'}"
+                                 + (f" -- right after operation {refused_before[nref - 1][0]} was refused with PayloadExceededError" if nref else ""),
+                                 rep, found_input=True)
+            send_model.append((fw, c, r))
+        # frame-wise sending (beginMessage / sendMessageFrame / endMessage) has no message size to compare: observed only
+        fr = ck.run_impl("ws_recv.py", {"fw": fw, "cases": [dict(BASE, role="server", max_msg=60, chunks=[], nolost=True,
+                                                                  sends=[dict(api="frames", len=200, kind="noise", fragment=50)])]}, nvx=False, timeout=300)["results"][0]
+        ck.bump("send-api:frame-wise-over-limit:" + ("written" if fr["sends"]["ops"][0]["wrote"] else "refused"))
+
         # ---- decompression cap, real zlib
         zc, zmeta = [], []
         zr = ck.rng("zlib")
@@ -366,6 +526,22 @@ def run(ck):
         ck.violation(f"model-disagrees/{c['role']}/fbd={c['fbd']}/pmc={c['pmc']}",
                      f"[{fw}] Gallina model and implementation disagree: model {vals[0][:300]} vs observed {r['events'][:6]} {r['state']} {r['close']}",
                      {"fw": fw, "case": c, "observed": r, "model": vals[0], "correspondence": "wsrecv_case_ok"}, found_input=False)
+    # ---- the send model (Model/WsSendGuard.v) on every send case, the compressor replayed from the run
+    ok, out = vlib.coq_make(["Model/WsSendGuardRun.vo"])
+    if not ok:
+        raise RuntimeError("WsSendGuardRun build failed: " + out[-1500:])
+    sterms = [send_term(c, r) for _, c, r in send_model]
+    sbad = ck.coq_cases("send", SEND_IMPORTS, "send_case_ok", sterms, ty="send_case", shard=200)
+    ck.bump("send_model_compared", len(sterms))
+    ck.log(f"send model vs implementation: {len(sterms)} cases, {len(sbad)} disagree")
+    for i in sbad[:5]:
+        fw, c, r = send_model[i]
+        vals = ck.coq_eval(SEND_IMPORTS, ["send_show " + sterms[i]])
+        ck.violation(f"send-model-disagrees/{c['role']}/pmc={c['pmc']}",
+                     f"[{fw}] Gallina send model and implementation disagree: model (refused, rsv1, octets, compressor is None) {vals[0][:400]} vs observed "
+                     f"{[(o['raised'], o['rsv1'], o['wire_len'], o['compressor_none']) for o in r['sends']['ops']]}",
+                     {"fw": fw, "case": c, "observed": {"ops": [dict(o, payload=o['payload'][:32]) for o in r['sends']['ops']]}, "model": vals[0],
+                      "correspondence": "send_case_ok"}, found_input=False)
     if broken:
         ck.log(f"broken obligations: {broken}")
 
